@@ -180,6 +180,12 @@ def _check_P(P, normalize, Qs, Ws, dirs, F, tag, scales=True):
         RQ = Exp_SO3_quat(Q, normalize=normalize)
         F.cmp("Exp_SO3_quat(quatprod(P,Q)) = R(P) R(Q)" + sfx, Exp_SO3_quat(PQ, normalize=normalize), R @ RQ, TOL, dict(d, Q=Q.tolist()), "hom")
         n += 1
+    # the product itself against an independent Hamilton product, also with integer-dtype factors (either side)
+    if normalize and np.all(P == np.round(P)):
+        Qg = np.array([0.3, -1.2, 0.7, 2.1])
+        for nm, a, b in (("int P, float Q", P.astype(np.int64), Qg), ("float P, int Q", Qg, P.astype(np.int64)), ("int P, int Q", P.astype(np.int64), P.astype(np.int64)[::-1].copy())):
+            F.cmp("quatprod vs Hamilton product [" + nm + "]", np.asarray(quatprod(a, b), float), al.quat_mul(np.asarray(a, float), np.asarray(b, float)), TOL, dict(d, dtypes=nm), "quatprod_dtype")
+            n += 1
     # tangent map and inverse
     T = T_SO3_quat(P, normalize=normalize)
     Ti = T_SO3_inv_quat(P, normalize=normalize)
